@@ -47,18 +47,16 @@ Definition ex_items2 : list item := [IBlob (repeat 7 1500)].
 Definition ex_file2 : list N :=
   d_bytes (pw_dev (fst (pw_drop (fst (wrun (fault_prog ex_items2 ex_xml) pw0))))).
 
+(* the fault-free open issues operations 0 .. 5; operation 7 is issued by the blob read *)
 Example rrun_fault_surfaces :
   let p := blob_read 2040 48 1500 in
+  strict p /\
   match snd (ReaderOpen.reader_open (dev_init ex_file2 None)),
         snd (ReaderOpen.reader_open (dev_init ex_file2 (Some 7))) with
   | Ok (s, _, _), Ok (s', _, _) =>
-      strict p /\ d_ops (pr_dev s) = 6 /\ d_ops (pr_dev (fst (rrun p s))) = 10 /\
-      snd (rrun p s) = Ok (repeat 7 1500) /\ snd (rrun p s') = Err ERead
-  | _, _ => False
-  end.
+      Some (d_ops (pr_dev s), d_ops (pr_dev (fst (rrun p s))), snd (rrun p s), snd (rrun p s'))
+  | _, _ => None
+  end = Some (6, 10, Ok (repeat 7 1500), Err ERead).
 Proof.
-  cbv zeta. vm_compute ReaderOpen.reader_open.
-  match goal with |- match ?a with _ => _ end => let v := eval vm_compute in a in change a with v end.
-  cbv iota beta.
-  split; [apply strict_blob_read|]. vm_compute. repeat split.
+  split; [apply strict_blob_read|]. vm_compute. reflexivity.
 Qed.
